@@ -1,0 +1,21 @@
+//go:build verif
+
+// Contracts for the tvc verifier (/verif). Comment-only: with the `verif` tag off this file does not exist,
+// with it on it adds no code. Syntax: /verif/DESIGN.md appendix A.
+
+package utils
+
+//@ for C03
+
+//@ # The final runtime status of a pod is an entry with the latest timestamp ("latest wins"), for every map order;
+//@ # it exists exactly when some entry is present.
+//@ func RuntimeFinalStatus
+//@   modifies nothing
+//@   ensures ok <==> (exists k v1beta1.CNIStatus :: k in status && status[k] != nil)
+//@   ensures ok ==> cniStatus in status && status[cniStatus] == cniStatusInfo && cniStatusInfo != nil
+//@   ensures ok ==> forall k v1beta1.CNIStatus :: k in status && status[k] != nil ==> instant(status[k].LastUpdateTime) <= instant(cniStatusInfo.LastUpdateTime)
+//@   loop 1 invariant ok <==> cniStatusInfo != nil
+//@   loop 1 invariant ok ==> cniStatus in status && status[cniStatus] == cniStatusInfo
+//@   loop 1 invariant ok ==> forall k v1beta1.CNIStatus :: seen(k) && status[k] != nil ==> instant(status[k].LastUpdateTime) <= instant(cniStatusInfo.LastUpdateTime)
+//@   loop 1 invariant !ok ==> forall k v1beta1.CNIStatus :: seen(k) ==> status[k] == nil
+//@   loop 1 invariant forall k v1beta1.CNIStatus :: seen(k) ==> k in status
